@@ -1,9 +1,13 @@
 (* Models of the two shared UDP tables.  Definitions only (facts: Proofs/UdpTableFacts.v).
 
      client binding table      octo-squirrel-client/src/client/template.rs   transfer_udp l.219-279,
-                               new_binding l.288-330; keys and labels: client/{shadowsocks,trojan,vmess}.rs
+                               new_binding l.288-330; keys, labels, what goes out with a datagram: the adapter functions
+                               of client/{shadowsocks,trojan,vmess}.rs, NOT written here but taken from the tables
+                               tools/gen_from_source.py extracts from their bodies (Generated/UdpAdapters.v, through
+                               Model/UdpAdapters.v: shape, shape_of)
      server association table  octo-squirrel-server/src/server/shadowsocks.rs startup_udp l.105-153,
-                               associate_key l.175-179, UdpAssociateContext l.199-297
+                               associate_key l.175-179 (its components: Generated/UdpAdapters.v
+                               server_assoc_key_parts), UdpAssociateContext l.199-297
 
    Both loops use the tables through the entry of ONE key per event:
        look the key up -> act on / replace / remove that entry.
@@ -12,6 +16,7 @@
    abstracted by explicit `Evict k` events (Drop of an entry aborts its task, so an evicted
    entry produces nothing any more). *)
 From Coq Require Import NArith List Bool.
+From Octo Require Export Model.UdpAdapters.      (* proto, the adapter vocabulary, shape, shape_of *)
 Import ListNotations.
 Open Scope N_scope.
 
@@ -54,12 +59,15 @@ Definition opt_eqb (a b : option N) : bool :=
 (* ===================================================================================== *)
 (* client binding table                                                                   *)
 (* ===================================================================================== *)
-Inductive proto := Shadowsocks | Trojan | Vmess.
+(* Everything protocol-specific enters through a `shape` (Model/UdpAdapters.v): the facts tools/gen_from_source.py
+   reads off the adapter functions of one protocol.  `s_*` definitions are the model for ANY shape (regressions are
+   other shapes); the unprefixed ones are the model of protocol p in the CURRENT source: shape_of p. *)
 
-(* new_key: shadowsocks.rs l.138 and trojan.rs l.105 return the sender; vmess.rs l.179 (sender, target) *)
+(* new_key(sender, target): client/{shadowsocks,trojan,vmess}.rs mod udp *)
 Definition ckey := (addr * option address)%type.
-Definition new_key (p : proto) (sender : addr) (target : address) : ckey :=
-  match p with Vmess => (sender, Some target) | _ => (sender, None) end.
+Definition key_by (ks : key_shape) (sender : addr) (target : address) : ckey :=
+  match ks with KSender => (sender, None) | KSenderTarget => (sender, Some target) end.
+Definition new_key (p : proto) : addr -> address -> ckey := key_by (s_key (shape_of p)).
 Definition ckey_eqb (a b : ckey) : bool := (fst a =? fst b) && opt_eqb (snd a) (snd b).
 
 (* what the reply task of a binding captured when it was spawned (new_binding l.304-308):
@@ -80,21 +88,22 @@ Inductive caction :=
 | ToLocalApp (k : ckey) (dst : addr) (label : address) (content : payload).
     (* sent on the local socket to dst, as a SOCKS5 UDP reply whose address field is label *)
 
-Definition cev_key (p : proto) (e : cevent) : ckey :=
+Definition s_cev_key (s : shape) (e : cevent) : ckey :=
   match e with
-  | CLocal sender target _ _ _ => new_key p sender target
+  | CLocal sender target _ _ _ => key_by (s_key s) sender target
   | CReply k _ _ | CTaskEnd k | CEvict k => k
   end.
 
-(* to_inbound_recv: shadowsocks.rs l.147 / trojan.rs l.136 keep the address of the packet,
-   vmess.rs l.229 takes the target the binding was made for; all three send to `sender` *)
-Definition reply_label (p : proto) (b : binding) (carried : address) : address :=
-  match p with Vmess => b_target b | _ => carried end.
+(* to_inbound_recv(item, binding_target, sender): the label is the address inside the decoded item, or the target the
+   binding was made for (new_binding hands `&_target`, a clone of the creating datagram's target); all send to `sender` *)
+Definition label_by (ls : label_src) (b : binding) (carried : address) : address :=
+  match ls with LabelFromServer => carried | LabelBindingTarget => b_target b end.
+Definition reply_label (p : proto) : binding -> address -> address := label_by (s_label (shape_of p)).
 
-Definition centry_step (p : proto) (o : option binding) (e : cevent) : option binding * list caction :=
+Definition s_centry_step (s : shape) (o : option binding) (e : cevent) : option binding * list caction :=
   match e with
   | CLocal sender target content out_ok send_ok =>
-      let k := new_key p sender target in
+      let k := key_by (s_key s) sender target in
       match o with
       | Some {| b_sender := _; b_target := _; b_alive := true |} =>            (* l.274 sink.send *)
           (o, if send_ok then [ToServer k target content] else [])
@@ -105,7 +114,7 @@ Definition centry_step (p : proto) (o : option binding) (e : cevent) : option bi
       end
   | CReply k content carried =>
       match o with
-      | Some b => if b_alive b then (o, [ToLocalApp k (b_sender b) (reply_label p b carried) content]) else (o, [])
+      | Some b => if b_alive b then (o, [ToLocalApp k (b_sender b) (label_by (s_label s) b carried) content]) else (o, [])
       | None => (None, [])
       end
   | CTaskEnd k =>
@@ -117,9 +126,25 @@ Definition centry_step (p : proto) (o : option binding) (e : cevent) : option bi
   end.
 
 Definition ctable := list (ckey * binding).
-Definition cstep (p : proto) : ctable -> cevent -> ctable * list caction := kstep ckey_eqb (cev_key p) (centry_step p).
-Definition crun (p : proto) : ctable -> list cevent -> ctable * list (ckey * caction) :=
-  krun ckey_eqb (cev_key p) (centry_step p).
+Definition s_cstep (s : shape) : ctable -> cevent -> ctable * list caction := kstep ckey_eqb (s_cev_key s) (s_centry_step s).
+Definition s_crun (s : shape) : ctable -> list cevent -> ctable * list (ckey * caction) :=
+  krun ckey_eqb (s_cev_key s) (s_centry_step s).
+
+Definition cev_key (p : proto) : cevent -> ckey := s_cev_key (shape_of p).
+Definition centry_step (p : proto) : option binding -> cevent -> option binding * list caction := s_centry_step (shape_of p).
+Definition cstep (p : proto) : ctable -> cevent -> ctable * list caction := s_cstep (shape_of p).
+Definition crun (p : proto) : ctable -> list cevent -> ctable * list (ckey * caction) := s_crun (shape_of p).
+
+(* The address the SERVER sends a datagram to, for a datagram with target `target` that went out on an outbound made
+   for `bound` (the b_target of its binding): the address inside the packet when the server uses that one
+   (server/trojan.rs decode_packet, server/shadowsocks.rs relay) -- there is one only if to_outbound_send kept the
+   target --, or the address of the request header (server/vmess.rs: header.address) -- which is the outbound's
+   creation-time target only if new_*_outbound built it in.  None: the server has no (defined) address to send to. *)
+Definition wire_dest (s : shape) (bound target : address) : option address :=
+  match s_dest s with
+  | DestPerPacket => match s_out s with OutKeepsTarget => Some target | OutDropsTarget => None end
+  | DestRequestHeader => match s_bound s with OutboundFixedTarget => Some bound | OutboundAnyTarget => None end
+  end.
 
 (* ===================================================================================== *)
 (* server association table                                                               *)
@@ -128,8 +153,15 @@ Definition user := N.          (* identity hash of an authenticated user; None: 
 
 (* AssociateKey = (client session id, user identity hash, client address for legacy ciphers), l.175-179 *)
 Definition akey := (N * option user * option addr)%type.
-Definition associate_key (replay_protected : bool) (sid : N) (u : option user) (client : addr) : akey :=
-  (sid, u, if replay_protected then None else Some client).
+(* the key holds exactly the components the source's associate_key puts into it (Generated/UdpAdapters.v
+   server_assoc_key_parts); a component that is not there is a constant *)
+Definition associate_key_of (parts : list akey_part) (replay_protected : bool) (sid : N) (u : option user) (client : addr) : akey :=
+  (if has_part AkSessionId parts then sid else 0,
+   if has_part AkUser parts then u else None,
+   if has_part AkClientAlways parts then Some client
+   else if has_part AkClientUnlessReplayProtected parts then (if replay_protected then None else Some client)
+   else None).
+Definition associate_key : bool -> N -> option user -> addr -> akey := associate_key_of server_assoc_key_parts.
 Definition akey_eqb (a b : akey) : bool :=
   (fst (fst a) =? fst (fst b)) && opt_eqb (snd (fst a)) (snd (fst b)) && opt_eqb (snd a) (snd b).
 
